@@ -351,7 +351,7 @@ func TestC12(t *testing.T) {
 
 	if r.WantLayer("concurrent", false) && !r.Replaying() {
 		os.Setenv("GORACE", "halt_on_error=1 exitcode=66")
-		results := runInChildren(t, "concurrent", nConc, 20*time.Minute)
+		results := runInChildren(t, "concurrent", nConc, 45*time.Minute)
 		for i, res := range results {
 			cell := fmt.Sprintf("concurrent #%d (seed %d, shard %d)", i, seed, shard)
 			nt := strings.Contains(res.Info, "lists=true text=true")
